@@ -1,60 +1,25 @@
-(* C11 - what was recorded about the pinned tree (commit fff2972 + hooks), written by hand from the
-   output of translators/clone_fields.py on that tree.  These lists are NOT regenerated: the
-   theorems of Properties_C11.v compare the regenerated tables of Gen_CloneFields.v against them, so
-   a member that clone_ast_node newly fails to copy (or a new member of ASTNode it ignores) breaks
-   a proof obligation, while a repair (a member that is now copied) does not. *)
+(* C11 - what is recorded about the tree after the repairs 211b7a0 (clone_ast_node copies every child and
+   scalar member) and d25f4a4 (substitute_type_parameters visits every child, rewrites new_type_name and
+   type_arguments, recomputes type_info only for a rewritten builtin/typedef name).  Hand-written, never
+   regenerated: the theorems of Properties_C11.v compare the regenerated tables of Gen_CloneFields.v against
+   these lists. *)
 From Coq Require Import String List.
 Import ListNotations.
 Local Open Scope string_scope.
 
-(* child members of ASTNode that clone_ast_node does not copy: 17 of 25 unique_ptr members *)
-Definition recorded_missing_ptr : list string :=
-    ["third"; "update_expr"; "array_index"; "array_size_expr"; "try_body"; "catch_body";
-     "finally_body"; "throw_expr"; "switch_expr"; "else_body"; "case_body"; "match_expr";
-     "range_start"; "range_end"; "default_value"; "new_array_size"; "delete_expr"].
-
-(* 7 of 11 vector members *)
-Definition recorded_missing_vec : list string :=
-    ["children"; "array_dimensions"; "array_indices"; "impl_static_variables"; "case_values";
-     "lambda_params"; "interpolation_segments"].
-
-(* vector<MatchArm>: every arm owns a body *)
-Definition recorded_missing_indirect : list string :=
-    ["match_arms"].
-
-Definition recorded_missing_children : list string :=
-  recorded_missing_ptr ++ recorded_missing_vec ++ recorded_missing_indirect.
-
-(* scalar members of ASTNode that clone_ast_node does not copy: 73 of 96 *)
-Definition recorded_missing_scalar : list string :=
-    ["location"; "is_impl_static"; "is_array_return"; "is_private_method"; "is_async";
-     "is_private_member"; "is_default_member"; "pointer_base_type"; "is_rvalue_reference";
-     "is_function_address"; "function_address_name"; "quad_value"; "is_float_literal";
-     "literal_type"; "literal_text"; "original_type_name"; "return_types"; "array_size";
-     "array_type_info"; "is_pointer_array_access"; "module_name"; "import_items"; "import_aliases";
-     "is_exported"; "is_default_export"; "import_path"; "exception_var"; "exception_type";
-     "qualified_name"; "is_qualified_call"; "is_arrow_call"; "enum_name"; "enum_member";
-     "enum_definition"; "union_name"; "union_definition"; "member_chain"; "interface_name";
-     "struct_name"; "function_pointer_type"; "is_function_pointer"; "function_pointer_value";
-     "array_pointer_type"; "is_array_pointer"; "is_pointer_const_qualifier"; "has_default_value";
-     "first_default_param_index"; "is_constructor"; "is_destructor"; "constructor_struct_name";
-     "is_async_function"; "is_await_expression"; "is_discard"; "internal_name"; "is_lambda";
-     "is_lambda_call"; "lambda_return_type"; "lambda_return_type_name"; "generic_base_name";
-     "is_type_parameter"; "type_parameter_name"; "interface_bounds"; "is_type_parameter_access";
-     "type_parameter_context"; "is_interpolation_text"; "is_interpolation_expr";
-     "interpolation_format"; "foreign_module_decl"; "foreign_function_decl"; "new_type_name";
-     "new_type_info"; "is_array_new"; "sizeof_type_info"].
-
 (* the string members substitute_type_parameters rewrites *)
 Definition recorded_subst_strings : list string :=
-    ["type_name"; "return_type_name"; "pointer_base_type_name"; "sizeof_type_name";
-     "cast_target_type"].
+  ["type_name"; "return_type_name"; "pointer_base_type_name"; "sizeof_type_name"; "cast_target_type"; "new_type_name"].
+
+(* ... and the string-vector member *)
+Definition recorded_subst_strvecs : list string := ["type_arguments"].
 
 (* Spec judgment: the members of ASTNode that carry a type name which may mention a type parameter *)
 Definition type_carrying_fields : list string :=
   ["type_name"; "original_type_name"; "return_type_name"; "pointer_base_type_name"; "exception_type";
    "new_type_name"; "sizeof_type_name"; "cast_target_type"; "lambda_return_type_name"; "type_arguments"].
 
-(* ... of which these are not rewritten on the pinned tree *)
+(* ... of which these are still not rewritten (original_type_name is informational; exception_type and
+   lambda_return_type_name belong to constructs outside the generated grammar) *)
 Definition recorded_unrewritten : list string :=
-  ["original_type_name"; "exception_type"; "new_type_name"; "lambda_return_type_name"; "type_arguments"].
+  ["original_type_name"; "exception_type"; "lambda_return_type_name"].
